@@ -21,9 +21,11 @@ RANGE_VALUES = {
     'month': ('2020-01', '2020-13', '2020-00', '0001-01', '10000-12', '2020-1', ''),
     'week': ('2020-W01', '2020-W53', '2021-W53', '2020-W54', '2020-W00', '0999-W01', '10000-W01', '2020-W1', '',
              '1980-W53', '2015-W53'),
-    'time': ('00:00', '23:59', '24:00', '12:60', '09:30', '9:30', '', '12:30:15'),
+    # the same minute with and without a seconds part (HTML allows `HH:MM:SS`; whatever a matcher makes of it, it must
+    # not fall over when only one of value and bound carries seconds)
+    'time': ('00:00', '23:59', '24:00', '12:60', '09:30', '9:30', '', '12:30:15', '12:30', '09:30:00', '09:30:59', '23:59:60'),
     'datetime-local': ('2020-02-29T12:00', '2021-02-29T12:00', '2020-01-01T24:00', '2020-01-01 12:00', '',
-                       '2020-01-01T00:00', '10000-01-01T00:00'),
+                       '2020-01-01T00:00', '10000-01-01T00:00', '2020-01-01T00:00:15', '2020-02-29T12:00:00'),
 }
 HUGE = '9' * 4400
 for _t, _v in (('date', HUGE + '-01-01'), ('month', HUGE + '-01'), ('week', HUGE + '-W01'), ('datetime-local', HUGE + '-01-01T00:00'),
@@ -142,7 +144,7 @@ def block(ch, cfg, depth, ns, in_form=False):
     out = []
     for _ in range(ch.i(1, 4 if depth > 1 else 3)):
         r = ch.weighted([(6, 'control'), (3, 'div'), (3, 'form'), (3, 'fieldset'), (1, 'iframe'), (1, 'svg'),
-                         (2, 'text'), (1, 'comment'), (1, 'bdi'), (1, 'custom'), (1, 'p')])
+                         (2, 'text'), (1, 'comment'), (1, 'bdi'), (1, 'custom'), (1, 'p'), (1, 'bidi-nest')])
         if depth <= 0 and r in ('div', 'form', 'fieldset', 'iframe', 'svg'):
             r = 'control'
         if r == 'control':
@@ -181,6 +183,14 @@ def block(ch, cfg, depth, ns, in_form=False):
                 # camelCase SVG names: html5lib stores them with their capitals inside an HTML document
                 kids.append(E(ch.pick(('foreignObject', 'clipPath', 'linearGradient')), {}, [T('f')] if ch.p(0.5) else [], ns=sns))
             out.append(E('svg', {}, kids, ns=sns))
+        elif r == 'bidi-nest':
+            # an element that takes its direction from its text, holding a descendant with a `dir` of its own (valid,
+            # `auto` in any case, or bogus) whose text comes first and runs the other way
+            first = ch.pick((RTL, ARABIC, 'latin', '123'))
+            inner = E(ch.pick(('span', 'b', 'p', 'bdi')), {'dir': ch.pick(('auto', 'AUTO', 'Auto', 'rtl', 'ltr', 'bogus', ''))} if ch.p(0.85) else {},
+                      [T(first)], ns=ns)
+            tail = [T(ch.pick(('latin', RTL, ' ', '42 ' + ARABIC)))] if ch.p(0.8) else []
+            out.append(E(ch.pick(('div', 'bdi', 'p')), {'dir': ch.pick(('auto', 'AUTO'))} if ch.p(0.8) else {}, [inner] + tail, ns=ns))
         elif r == 'text':
             out.append(T(ch.pick(TEXTS)))
         else:
